@@ -537,7 +537,11 @@ def gen_scenarios(rng, tier, focus):
         marks = [x for x in (mem, mx) if x]
         for _ in range(rng.randint(2, 7)):
             method = rng.choice(METHODS + ["POST", "PUT", "GET"])
-            url = "/p%d" % rng.randint(0, 99) + rng.choice(["", "", "/seg", "/a/b"]) + rng.choice(["", "", "?x=1", "?x=1&y=%d" % rng.randint(0, 9)])
+            # the client's request target: escaped slashes and other percent-escapes (RawPath), a bare trailing '?'
+            # (ForceQuery), empty and odd queries (RawQuery); the handler must see exactly this target
+            url = ("/p%d" % rng.randint(0, 99)
+                   + rng.choice(["", "", "/seg", "/a/b", "/a%2Fb/meta", "/sp%20ace", "/%41bc", "/x;v=1", "/a+b", "/a%2fb%3Fc", "/dot/../up", "//dbl"])
+                   + rng.choice(["", "", "?x=1", "?x=1&y=%d" % rng.randint(0, 9), "?", "?x=", "?a;b", "?q=a+b%20c", "?x=%2F&y=%3F", "?&"]))
             ln = _pick_size(rng, marks, 3000)
             r = rng.random()
             if huge_left and r < 0.02 and not mx:
